@@ -56,4 +56,9 @@ func init() {
 	addExplanation("C12", "(R3, additions) the SOCKS5 connect is DialContext on the scan's context and every HTTP request of the docker / elastic probes carries a context derived from it (C09.R2 dial clause, C10.R3 request clauses); (R5) every Scanner.Scan returns, whenever its error may be nil, nil or a freshly allocated record - never an interface around a possibly nil pointer.")
 	addExplanation("C17", "(R7, addition) the parse step a command calls reaches the derivation of every derived options field the command goes on to read: a parseRawOptions that shadows the embedded one without delegating to it is reported.")
 	addExplanation("C18", "(R8) ip.ParseIPNet accepts IPv4 hosts and IPv4 CIDR blocks only (C02.R1 typestate) and --ports with --ports-file denotes the union of both in either option family (C01.R9).")
+	// refactoring batch 6
+	addExplanation("C17", "(R5, addition) the default route is chosen among all IPv4 routes: the route-list call passes family AF_INET and no link / route filter (RouteList(nil, FAMILY_V4) or its definition RouteListFiltered(FAMILY_V4, nil, mask)).")
+	addExplanation("C15", "(R1, addition) a one-block function whose only call is limiter.Take() is a charge helper: its callers are the limiter wrappers and a call of it counts as the Take that must precede the delegate call exactly once.")
+	addExplanation("C12", "(R1, addition) a function whose make(chan) is only returned is a channel factory: close / send / receive discipline is decided per call site of the factory.")
+	addExplanation("C09", "(R3, addition) the deadline wrapper's connection is its field of type net.Conn, named or embedded; (R4, addition) the watchdog's stop signal is a channel closed by defer or a root context (context.WithCancel(context.Background())) cancelled by defer.")
 }
